@@ -92,6 +92,14 @@ class Universe:
             return item[0]
         return item.k
 
+    def conforms(self, x):
+        item_t = {"self": str, "selfint": int, "tuple": tuple, "list": list}.get(self.name) or env()["It"]
+        key_t = int if self.name == "selfint" else str
+        try:
+            return isinstance(x, item_t) and isinstance(self.model_key(x), key_t)
+        except Exception:
+            return False
+
     def alias(self):
         KS = env()["KeyedSet"]
         return {"self": KS[str, str], "selfint": KS[int, int], "tuple": KS[tuple, str], "list": KS[list, str], "spec": KS[env()["It"], str]}[self.name]
@@ -174,7 +182,8 @@ def model_observe(u, enforce, m):
 #      arg for binary ops = [kind ("ks"|"set"), [[ki, p|"same"], ...]]
 
 ELEMENT_OPS = ["add", "discard", "remove", "contains", "getitem"]
-BINARY_NEW = ["or", "and", "sub", "xor"]
+BINARY_NEW = ["or", "and", "sub", "xor", "ror", "rand", "rsub", "rxor"]  # r*: the built-in set is the LEFT operand (reflected methods)
+REFLECTED = ("ror", "rand", "rsub", "rxor")
 BINARY_CMP = ["le", "lt", "ge", "gt", "eq", "ne", "isdisjoint"]
 BINARY_INPLACE = ["ior", "iand", "isub", "ixor"]
 CLEAN = (KeyError, ValueError, TypeError)
@@ -358,9 +367,14 @@ def run_case(ctx, case):
                 if shared:
                     collisions += 1
                 ka, kb = set(m), set(om)
+                if name in REFLECTED and kind != "set":
+                    continue  # with a KeyedSet on the left its own (non-reflected) method answers
                 if name in BINARY_NEW:
-                    r = {"or": lambda: s | other, "and": lambda: s & other, "sub": lambda: s - other, "xor": lambda: s ^ other}[name]()
-                    want = {"or": ka | kb, "and": ka & kb, "sub": ka - kb, "xor": ka ^ kb}[name]
+                    compute = {"or": lambda o: s | o, "and": lambda o: s & o, "sub": lambda o: s - o, "xor": lambda o: s ^ o,
+                               "ror": lambda o: o | s, "rand": lambda o: o & s, "rsub": lambda o: o - s, "rxor": lambda o: o ^ s}[name]
+                    r = compute(other)
+                    want = {"or": ka | kb, "and": ka & kb, "sub": ka - kb, "xor": ka ^ kb,
+                            "ror": ka | kb, "rand": ka & kb, "rsub": kb - ka, "rxor": ka ^ kb}[name]
                     if not isinstance(r, KS):
                         ctx.fail(f"{tag}:result_type", case, f"{name} returned {type(r).__name__}")
                         return
@@ -373,6 +387,8 @@ def run_case(ctx, case):
                         cands = [c[k] for c in (m, om) if k in c]
                         if name == "sub":
                             cands = [m[k]]
+                        if name == "rsub":
+                            cands = [om[k]]
                         if not any(x == c for c in cands):
                             ctx.fail(f"{tag}:result_items", case, f"{name}: result item {x!r} is none of {cands!r}")
                             return
@@ -380,6 +396,36 @@ def run_case(ctx, case):
                     if sorted(map(repr, r.keys())) != sorted(map(repr, want)) or not all(k in r and r[k] == x for k, x in zip(rkeys, list(r))):
                         ctx.fail(f"{tag}:result_index", case, f"{name}: result keys() {list(r.keys())!r} disagree with its items {list(r)!r}")
                         return
+                    # a result that presents itself as parameterised (repr / refusing an ill-typed add) holds conforming
+                    # items only - also when the operand carried ill-typed ones (the docs leave open whether such a
+                    # result is parameterised at all; a failing operation is fine too)
+                    if typed:
+                        for bad in u.bad_items():
+                            try:
+                                if kind == "set":
+                                    hash(bad)
+                                    obad = set(oitems) | {bad}
+                                else:
+                                    obad = KS(list(oitems) + [bad], key=u.keyfn(), enforce_item_equivalence=enforce)
+                                r2 = compute(obad)
+                            except CLEAN:
+                                ctx.count("typed_result_probe:raised")
+                                continue
+                            if not isinstance(r2, KS):
+                                continue
+                            wrong = [x for x in r2 if not u.conforms(x)]
+                            claims = repr(r2).startswith("KeyedSet[")
+                            if not claims:
+                                try:
+                                    r2.add(bad)
+                                except TypeError:
+                                    claims = True
+                                except CLEAN:
+                                    pass
+                            ctx.count(f"typed_result_probe:{'typed' if claims else 'untyped'}")
+                            if claims and wrong:
+                                ctx.fail(f"{tag}:typed_result_holds_illtyped", case, f"{name} with an operand holding {bad!r}: the result {r2!r} presents itself as parameterised but holds {wrong!r}")
+                                return
                 elif name in BINARY_CMP:
                     r = {
                         "le": lambda: s <= other, "lt": lambda: s < other, "ge": lambda: s >= other, "gt": lambda: s > other,
